@@ -1050,19 +1050,11 @@ func (env *SpecEnv) isNil(v SVal) *Term {
 func (env *SpecEnv) bin(n *EBin) SVal {
 	switch n.Op {
 	case "&&":
-		l := env.evalBool(n.L)
-		if l.isFalse() {
-			return gBool(l) // the right operand may be unreadable exactly because the left one is false (istype guard)
-		}
-		return gBool(And(l, env.evalBool(n.R)))
+		return gBool(And(env.evalBool(n.L), env.evalBool(n.R)))
 	case "||":
 		return gBool(Or(env.evalBool(n.L), env.evalBool(n.R)))
 	case "==>":
-		l := env.evalBool(n.L)
-		if l.isFalse() {
-			return gBool(True())
-		}
-		return gBool(Implies(l, env.evalBool(n.R)))
+		return gBool(Implies(env.evalBool(n.L), env.evalBool(n.R)))
 	case "<==>":
 		return gBool(Eq(env.evalBool(n.L), env.evalBool(n.R)))
 	}
